@@ -1972,7 +1972,14 @@ func (db *DatabaseCollectionWithUser) ResyncDocument(ctx context.Context, docid 
 	var updatedDoc *Document
 	var updatedExpiry *uint32
 	var unusedSequences []uint64
+	var regeneratedSequence uint64  // sequence allocated by the most recent callback iteration (regenerateSequences only)
+	var abandonedSequences []uint64 // sequences allocated by iterations whose write did not happen
 	writeUpdateFunc := func(currentValue []byte, currentXattrs map[string][]byte, cas uint64) (sgbucket.UpdatedDoc, error) {
+		// This block can be invoked multiple times on CAS retry: the sequence allocated by the previous iteration is unused.
+		if regeneratedSequence != 0 {
+			abandonedSequences = append(abandonedSequences, regeneratedSequence)
+			regeneratedSequence = 0
+		}
 		// resyncDocument is not called on tombstoned documents, so this value will only be empty if the document was
 		// deleted between DCP event and calling this function. In any case, we do not need to update it.
 		if len(currentValue) == 0 {
@@ -1982,7 +1989,11 @@ func (db *DatabaseCollectionWithUser) ResyncDocument(ctx context.Context, docid 
 		if err != nil {
 			return sgbucket.UpdatedDoc{}, err
 		}
+		storedSequence := doc.Sequence
 		updatedDoc, unusedSequences, err = db.getResyncedDocument(ctx, doc, regenerateSequences)
+		if doc.Sequence != storedSequence {
+			regeneratedSequence = doc.Sequence
+		}
 		if err != nil {
 			return sgbucket.UpdatedDoc{}, err
 		}
@@ -2010,6 +2021,12 @@ func (db *DatabaseCollectionWithUser) ResyncDocument(ctx context.Context, docid 
 	mutateInOpts := sgbucket.MutateInOptions{}
 	var expiry uint32
 	_, err := db.dataStore.WriteUpdateWithXattrs(ctx, docid, db.syncGlobalSyncMouRevSeqNoAndUserXattrKeys(), expiry, previousDoc, &mutateInOpts, writeUpdateFunc)
+	// Release the sequences that no write carries: those of iterations that lost their CAS, and the last one if the write
+	// failed (after a timeout the write may have succeeded, so that sequence cannot be released).
+	if err != nil && !base.IsTimeoutError(err) && regeneratedSequence != 0 {
+		abandonedSequences = append(abandonedSequences, regeneratedSequence)
+	}
+	db.releaseSequences(ctx, abandonedSequences)
 	if err == nil {
 		base.Audit(ctx, base.AuditIDDocumentResync, base.AuditFields{
 			base.AuditFieldDocID:      docid,
